@@ -1,6 +1,6 @@
 (* Properties/C04.v — Targets are only placed where they fit under the series limits.
    Statements only; proofs in Proofs/CoordEvents.v and Proofs/CoordCycle.v. *)
-From KV Require Import Base.Util Base.AMap Model.Coordinator Model.CoordCheck Proofs.CoordEvents Proofs.CoordCycle.
+From KV Require Import Base.Util Base.AMap Model.Coordinator Model.CoordCheck Proofs.CoordEvents Proofs.CoordCycle Proofs.CoordC04.
 Local Open Scope list_scope.
 Local Open Scope Z_scope.
 
@@ -14,6 +14,30 @@ Theorem C04_fits : forall o i sch e,
   ev_proc_before e + ev_total e < max_proc o.
 Proof. exact c04_fits. Qed.
 Print Assumptions C04_fits.
+
+(* The running load an event records is exactly what the property names: the load that shard REPORTED in this cycle
+   plus everything placed on it earlier in the cycle (by relief, assignment or scale-down moves alike). *)
+Theorem C04_running_load : forall o i sch pre e post,
+  o_events (cycle o i sch) = pre ++ e :: post ->
+  ev_head_before e = si_head (info_at i (ev_to e)) + sum_to ev_series (ev_to e) pre /\
+  ev_proc_before e = si_proc (info_at i (ev_to e)) + sum_to ev_total (ev_to e) pre.
+Proof. exact c04_running_load. Qed.
+Print Assumptions C04_running_load.
+
+(* Hence: the reported load of a shard plus EVERYTHING placed on it during the cycle stays strictly below the limits. *)
+Theorem C04_reported_plus_placed_fits : forall o i sch k,
+  (exists e, In e (o_events (cycle o i sch)) /\ ev_to e = k) ->
+  (max_head o = 0 \/ si_head (info_at i k) + sum_to ev_series k (o_events (cycle o i sch)) < max_head o) /\
+  si_proc (info_at i k) + sum_to ev_total k (o_events (cycle o i sch)) < max_proc o.
+Proof. exact c04_total_fits. Qed.
+Print Assumptions C04_reported_plus_placed_fits.
+
+(* A target that alone exceeds a limit is skipped by assignment altogether: nothing placed, no needed space counted
+   (so it cannot cause a scale-up). *)
+Theorem C04_oversized_adds_no_need : forall o scraped g st h,
+  is_too_big o (g h) = true -> assign_step o scraped g st h = st.
+Proof. exact assign_step_too_big. Qed.
+Print Assumptions C04_oversized_adds_no_need.
 
 (* A target that alone exceeds a limit is never assigned. *)
 Theorem C04_oversized_never_assigned : forall o i sch e,
